@@ -86,7 +86,8 @@ def other_class_source(t, mv, rng, cache, env):
     nd = len(t["dims"])
     order2 = list(range(nd))
     rng.shuffle(order2)
-    t2 = dict(t, n=t["n"] + "alt", ord=order2, dims=[s_ if rng.random() < 0.5 else d for s_, d in zip(mv.shape, t["dims"])])
+    from xv.typegen import _uid
+    t2 = dict(t, n=t["n"] + f"alt{next(_uid)}", ord=order2, dims=[s_ if rng.random() < 0.5 else d for s_, d in zip(mv.shape, t["dims"])])
     cls2 = build(t2, cache)
     arg = cls2(plain(t2, mv, rng, np_scalars=True), _buffer=rng.choice([env.buf, None]))
     env.repoison()
